@@ -53,6 +53,7 @@ class VFS:
         self.fail_partial = None   # for a failing write: number of bytes that still get written
         self.fail_errno = errno.ENOSPC
         self.failed = False
+        self.fail_sticky = False   # "the disk stays full": once the fault has fired every later write fails too
         self.fault_log = []
         self.hook = None           # scheduler yield hook: hook(kind, path)
         self.ntemp = 0
@@ -77,6 +78,9 @@ class VFS:
         write(2) does); the NEXT mutating op then fails with the error."""
         i = self.nops
         self.nops += 1
+        if self.failed and self.fail_sticky and kind == 'write' and self.fail_at is not None:
+            self.fault_log.append((i, kind, path, 'error (disk still full)'))
+            raise InjectedFault(self.fail_errno, 'injected fault: disk still full at op %d (%s %s)' % (i, kind, path))
         if self.fail_at is not None and not self.failed:
             if api.decide(lambda: i == self.fail_at):
                 if kind == 'write' and self.fail_partial is not None:
